@@ -251,6 +251,13 @@ impl Stream for Numbered {
                 this.next += 1;
                 let take = p(|p| p.eff_take);
                 w(|w| {
+                    // C15: take(n) takes exactly the first min(n, len) items out of the source — an item that is
+                    // pulled and then thrown away is lost to whoever owns the source
+                    if let Some(t) = take {
+                        if pos as usize >= t {
+                            w.violate(&["C15"], format!("source item #{pos} was taken out of the source although the pipeline is limited by take({t})"));
+                        }
+                    }
                     if w.co.first_err_at.is_some() && FALLIBLE.with(|f| f.get()) {
                         w.co.src_items_after_err += 1;
                     }
